@@ -117,6 +117,7 @@ type Vaxis struct {
 	cursorNext       cursorState
 	cursorLast       cursorState
 	closed           bool
+	suspended        bool
 	refresh          bool
 	kittyFlags       int
 	disableMouse     bool
@@ -1375,6 +1376,12 @@ func (vx *Vaxis) Suspend() error {
 	// 2. Send a DA1 query so there is data on the reader, breaking the read
 	//    loop
 	// 3. Confirm we have closed
+	if vx.suspended {
+		// Already suspended (e.g. Close while suspended): the parser is
+		// stopped and the terminal restored, nothing to wait for
+		return nil
+	}
+	vx.suspended = true
 	vx.parser.Close()
 	io.WriteString(vx.console, primaryAttributes)
 	vx.parser.WaitClose()
@@ -1471,6 +1478,7 @@ func (vx *Vaxis) Resume() error {
 	if err != nil {
 		return err
 	}
+	vx.suspended = false
 
 	vx.enterAltScreen()
 	vx.enableModes()
